@@ -35,10 +35,17 @@ fn gen_stats(t: &mut Tape, schema: &[TableDef]) -> Vec<(String, u32)> {
 pub fn decode(ctx: &Ctx, tape: &[u32], disk: Option<DiskCfg>, subqueries: bool) -> OptCase {
     let cfg = cfg_for(ctx, subqueries);
     let mut t = Tape::new(tape);
-    let db = gen_dbspec(&mut t, &cfg, disk);
+    let mut db = gen_dbspec(&mut t, &cfg, disk);
+    db.post = gen_post(&mut t, &cfg, &db.schema);
     let stats = gen_stats(&mut t, &db.schema);
     let stats2 = gen_stats(&mut t, &db.schema);
-    let query = {
+    // one in five (where a table has an INT key): a key-range scan, the shape the disk-only
+    // filter-scan rules push into the storage
+    let keyed: Vec<&TableDef> = db.schema.iter().filter(|td| td.cols.iter().any(|c| c.pk && c.ty == Ty::Int)).collect();
+    let query = if !keyed.is_empty() && t.chance(1, 5) {
+        let td = keyed[t.pick(keyed.len())];
+        key_range_query(&mut t, td).unwrap()
+    } else {
         let mut g = Gen { t: &mut t, cfg: cfg.clone(), schema: &db.schema, alias_no: 0 };
         g.query(0)
     };
